@@ -18,6 +18,8 @@ static int64_t vf_clock_next(void)
 uint64_t x__ZNSt6chrono3_V212system_clock3nowEv(void) { return (uint64_t)vf_clock_next(); }
 uint32_t x_pthread_spin_lock(uint32_t *l) { return 0; }
 uint32_t x_pthread_spin_unlock(uint32_t *l) { return 0; }
+/* clock_gettime (hypersleep's deadline computation): an arbitrary normalised timespec */
+uint32_t x_clock_gettime(uint32_t clk, struct S_struct_2etimespec *ts) { int64_t s = nondet_i64(), ns = nondet_i64(); __CPROVER_assume(s >= 0 && s < ((int64_t)1 << 40) && ns >= 0 && ns < 1000000000); ts->f0 = (uint64_t)s; ts->f1 = (uint64_t)ns; return 0; }
 uint32_t x_clock_nanosleep(uint32_t clk, uint32_t flags, struct S_struct_2etimespec *req, struct S_struct_2etimespec *rem) { return 0; }
 int n_conn_stop;
 void x__ZN4FIX810Connection4stopEv(struct S_class_2eFIX8_3a_3aConnection *c) { n_conn_stop++; }
